@@ -13,6 +13,7 @@ LEVEL = "model_checking"
 ALT_MOUNT = True
 _CFG = None
 VALS = (1, 5, 9)
+VALS_BIG = (3, 2 ** 63 + 5, 2 ** 64 - 7)
 NET_HDR = (b"Inter-|   Receive                                                |  Transmit\n"
            b" face |bytes    packets errs drop fifo frame compressed multicast|bytes    packets errs drop fifo colls carrier compressed\n")
 # psutil field order of snetio -> column index in /proc/net/dev
@@ -27,9 +28,11 @@ DISK_COL = {"read_count": 0, "read_merged_count": 1, "read_bytes": 2, "read_time
 
 
 class Cfg:
-    def __init__(self, seed, mode, thorough):
+    def __init__(self, seed, mode, thorough, big=False):
         self.mode = mode          # 'net' | 'disk' | 'both'
         self.thorough = thorough
+        # the values the moving counters take: small ones, or the neighbourhood of 2**63 / 2**64 (u64 counters about to wrap)
+        self.vals = VALS_BIG if big else VALS
         self.off = 100 * (seed % 7)   # don't-care base offset of untouched counters
         self.net_devs = ("x", "y", "z")
         self.disk_devs = ("sda", "sda1")
@@ -54,10 +57,10 @@ class Exec:
                     "disk": {d: {f: c.off + 20 + i for i, f in enumerate(DISK_FIELDS)} for d in c.disk_devs}}
         for d in c.net_devs:
             for f in c.net_ctrs:
-                self.raw["net"][d][f] = 5
+                self.raw["net"][d][f] = c.vals[1]
         for d in c.disk_devs:
             for f in c.disk_ctrs:
-                self.raw["disk"][d][f] = 5
+                self.raw["disk"][d][f] = c.vals[1]
         self.present = {"net": {d: d != "z" for d in c.net_devs}, "disk": {d: True for d in c.disk_devs}}
         # reference accumulator: fn -> None | {"prev": {dev: {f: raw}}, "rem": {dev: {f: n}}}
         self.ref = {"net": None, "disk": None}
@@ -111,7 +114,7 @@ class Exec:
                 for f in ctrs:
                     if d == "z":
                         continue          # (a re-plugged device may come back with other counter values)
-                    for v in VALS:
+                    for v in c.vals:
                         if v != self.raw[fn][d][f]:
                             ev.append(["set", fn, d, f, v])
             for plug in devs[1:]:
@@ -293,16 +296,19 @@ ROOTS = {
 
 def one(ctx, mode, depth):
     global _CFG
-    _CFG = Cfg(ctx.seed, mode, ctx.thorough)
+    big = mode.endswith("-big")
+    mode = mode.split("-")[0]
+    _CFG = Cfg(ctx.seed, mode, ctx.thorough, big=big)
     ctx.close()          # workers must see the new configuration
-    res = bfs(run_h, depth, ctx, roots=ROOTS[mode])
+    res = bfs(run_h, depth, ctx, roots=ROOTS[mode] if not big else None)
     for v in res["violations"]:
-        v["case"]["mode"] = mode
+        v["case"]["mode"] = mode + ("-big" if big else "")
     return res
 
 
 def run(ctx):
     plan = [("net", 6), ("disk", 6), ("both", 4)] if not ctx.thorough else [("net", 7), ("disk", 7), ("both", 5)]
+    plan += [("net-big", 5 if ctx.thorough else 4), ("disk-big", 5 if ctx.thorough else 4)]
     if ctx.alt:
         plan = [("net", 4), ("disk", 4)]          # second pass with procfs mounted elsewhere: shorter histories, no schedules
     tot = {"states": 0, "transitions": 0}
@@ -341,7 +347,7 @@ def replay(ctx, case):
     if case.get("part") == "S":
         from vf.checks import c10s
         return c10s.replay_s(ctx, case)
-    _CFG = Cfg(ctx.seed, case.get("mode", "both"), ctx.thorough)
+    _CFG = Cfg(ctx.seed, case.get("mode", "both").split("-")[0], ctx.thorough, big=case.get("mode", "").endswith("-big"))
     ex = Exec(_CFG)
     trace = []
     for ev in case["history"]:
